@@ -502,21 +502,21 @@ theorem corrI_snoc_skip (m : Nat) {b : Nat} {rs : List (Route α)} {gs : List (R
   induction hc with
   | nil => exact CorrI.skip hm CorrI.nil
   | skip h _ ih => exact CorrI.skip h ih
-  | one h1 h2 h3 h4 h5 h6 h7 h8 _ ih => exact CorrI.one h1 h2 h3 h4 h5 h6 h7 h8 ih
-  | merged h1 h2 h3 h4 h5 h6 h7 h8 h9 h10 h11 h12 _ ih =>
-    exact CorrI.merged h1 h2 h3 h4 h5 h6 h7 h8 h9 h10 h11 h12 ih
+  | one h1 h2 h3 h4 h5 h6 h7 h8 hk _ ih => exact CorrI.one h1 h2 h3 h4 h5 h6 h7 h8 hk ih
+  | merged h1 h2 h3 h4 h5 h6 h7 h8 h9 h10 h11 h12 hk _ ih =>
+    exact CorrI.merged h1 h2 h3 h4 h5 h6 h7 h8 h9 h10 h11 h12 hk ih
 
 theorem corrI_snoc_in (merge : Bool) (n m : Nat) {b : Nat} {rs : List (Route α)} {gs : List (Reg α)}
     (hc : CorrI m b rs gs) (hwf : ∀ g ∈ gs, WFReg g) (g : Reg α) (hm : m ∈ g.methods) :
     CorrI m b (snocRoute merge n (b + gs.length) m g rs) (gs ++ [g]) := by
   induction hc with
   | @nil b =>
-    exact CorrI.one hm rfl rfl rfl rfl rfl (by simp [mkRoute]) (by simp [mkRoute]) CorrI.nil
+    exact CorrI.one hm rfl rfl rfl rfl rfl (by simp [mkRoute]) (by simp [mkRoute]) rfl CorrI.nil
   | @skip b rs gs g0 h _ ih =>
     have e : b + (g0 :: gs).length = (b + 1) + gs.length := by simp; omega
     rw [e]
     exact CorrI.skip h (ih (fun x hx => hwf x (List.mem_cons_of_mem _ hx)))
-  | @one b r rs g0 gs h1 h2 h3 h4 h5 h6 h7 h8 hc' ih =>
+  | @one b r rs g0 gs h1 h2 h3 h4 h5 h6 h7 h8 hk hc' ih =>
     have hwf' : ∀ x ∈ gs, WFReg x := fun x hx => hwf x (List.mem_cons_of_mem _ hx)
     have e : b + (g0 :: gs).length = (b + 1) + gs.length := by simp; omega
     rw [e]
@@ -527,16 +527,16 @@ theorem corrI_snoc_in (merge : Bool) (n m : Nat) {b : Nat} {rs : List (Route α)
       split
       · rename_i hcond
         simp only [Bool.and_eq_true, beq_iff_eq] at hcond
-        refine CorrI.merged (r' := mkRoute (n + 1) (b + 1 + gs.length) m g) h1 h2 h3 h4 ?_ ?_ rfl ?_ h6 ?_ h7 rfl ih'
+        refine CorrI.merged (r' := mkRoute (n + 1) (b + 1 + gs.length) m g) h1 h2 h3 h4 ?_ ?_ rfl ?_ h6 ?_ h7 rfl hk ih'
         · simp [mkRoute, ← hcond.1.1.2, h2]
         · simp [mkRoute, ← hcond.2, h3]
         · simp [mkRoute, h5]
         · simp [mkRoute, ← hcond.1.2, h6]
-      · exact CorrI.one h1 h2 h3 h4 h5 h6 h7 h8 ih'
+      · exact CorrI.one h1 h2 h3 h4 h5 h6 h7 h8 hk ih'
     | cons r2 rs2 =>
       simp only [snocRoute]
-      exact CorrI.one h1 h2 h3 h4 h5 h6 h7 h8 ih'
-  | @merged b r r' rs g0 gs h1 h2 h3 h4 h5 h6 h7 h8 h9 h10 h11 h12 hc' ih =>
+      exact CorrI.one h1 h2 h3 h4 h5 h6 h7 h8 hk ih'
+  | @merged b r r' rs g0 gs h1 h2 h3 h4 h5 h6 h7 h8 h9 h10 h11 h12 hk hc' ih =>
     have hwf' : ∀ x ∈ gs, WFReg x := fun x hx => hwf x (List.mem_cons_of_mem _ hx)
     have e : b + (g0 :: gs).length = (b + 1) + gs.length := by simp; omega
     rw [e]
@@ -552,15 +552,15 @@ theorem corrI_snoc_in (merge : Bool) (n m : Nat) {b : Nat} {rs : List (Route α)
       · rename_i hcond
         rw [if_pos hcond] at ih'
         refine CorrI.merged (r' := { r' with handlers := r'.handlers ++ markSeam g.handlers, last := b + 1 + gs.length })
-          h1 h2 h3 h4 h5 h6 h7 ?_ h9 h10 h11 rfl ih'
+          h1 h2 h3 h4 h5 h6 h7 ?_ h9 h10 h11 rfl hk ih'
         simp only [h8]
         rw [markSeam_append _ _ (corrI_handlers_ne m hc' hwf'), List.append_assoc]
       · rename_i hcond
         rw [if_neg hcond] at ih'
-        exact CorrI.merged h1 h2 h3 h4 h5 h6 h7 h8 h9 h10 h11 h12 ih'
+        exact CorrI.merged h1 h2 h3 h4 h5 h6 h7 h8 h9 h10 h11 h12 hk ih'
     | cons r2 rs2 =>
       simp only [snocRoute] at ih' ⊢
-      exact CorrI.merged h1 h2 h3 h4 h5 h6 h7 h8 h9 h10 h11 h12 ih'
+      exact CorrI.merged h1 h2 h3 h4 h5 h6 h7 h8 h9 h10 h11 h12 hk ih'
 
 theorem foldl_addReg_nreg (merge : Bool) (gs : List (Reg α)) (S : Stacks α) :
     (gs.foldl (addReg merge) S).nreg = S.nreg + gs.length := by
